@@ -1,5 +1,6 @@
 import TracklibVerif.Model.Resample
 import TracklibVerif.Model.ObsTime
+import TracklibVerif.Model.ObsTimeG
 import TracklibVerif.Drv.Util
 /-! Driver handler for C05 (linear resampling). One command:
 
@@ -14,14 +15,17 @@ import TracklibVerif.Drv.Util
      mode   : 1 spatial, 2 temporal (any other number: no resampling)
      delta  : `none` | `num:<δ>` | `list:<t,t,…>` | `track:<t,t,…>` (a reference track, given by its stamps) | `other`
      npts   : `none` | n ;  factor : n
-  reply  : `ok <track>#<track>…`, a track being `<points>|<features>` with points `x,y,z,t,Y,M,D,h,m,s,ms;…`
-           (stamp = `stampOf`: the C03 model applied to ⌊1000·t⌋, `neg` before 1970) or `err:index` / `err:zerodiv` /
+  reply  : `ok <track>#<track>…`, a track being `<points>|<features>` with points `x,y,z,t,<stampOf>,<stampG>;…`
+           (`<stampOf>` = `Y,M,D,h,m,s,ms`: the C03 integer model applied to ⌊1000·t⌋, `neg` before 1970;
+            `<stampG>` = `Y,M,D,h,m,s,ms`: `ObsTime.readUnixTime(t)` mirrored operation for operation on the scalar `t` -- C03's
+            `readUnixG` at ℚ / at IEEE doubles, `nofuel` for NaN / infinity) or `err:index` / `err:zerodiv` /
            `err:nonterm` / `err:type`.
   `q`: scalars are rationals `p/q`, square roots must be exact (else `inexact`); `f`: IEEE doubles as bit patterns. -/
 namespace TV.Drv.C05
 open TV.Resample TV.Drv
 
 instance : NatCast Float := ⟨Float.ofNat⟩
+local instance : IntCast Float := ⟨Float.ofInt⟩
 
 def ratTrunc (r : Rat) : Int := if r < 0 then -((-r).floor) else r.floor
 def floatTrunc (f : Float) : Int := f.toInt64.toInt
@@ -66,11 +70,21 @@ def showStamp : Option TV.ObsTime.Stamp → String
   | none => "neg"
   | some t => s!"{t.d.year},{t.d.month},{t.d.day},{t.d.hour},{t.d.min},{t.d.sec},{t.ms}"
 
-def showTrack {α} (sh : α → String) (ms : α → Int) (r : List (Fix α) × List String) : String :=
-  joinWith ";" (r.1.map fun p => s!"{sh p.x},{sh p.y},{sh p.z},{sh p.t},{showStamp (stampOf ms p.t)}")
+def showStampG : Option TV.ObsTime.StampZ → String
+  | none => "nofuel"
+  | some t => s!"{t.year},{t.month},{t.day},{t.hour},{t.min},{t.sec},{t.ms}"
+
+/-- the two printers of a scalar's stamp: `stampOf` (⌊1000·t⌋ through the integer reader) and `stampG` (the mirrored reader) -/
+structure Stamper (α : Type) where
+  ms : α → Int
+  g : α → Option TV.ObsTime.StampZ
+
+def showTrack {α} (sh : α → String) (st : Stamper α) (r : List (Fix α) × List String) : String :=
+  joinWith ";" (r.1.map fun p =>
+      s!"{sh p.x},{sh p.y},{sh p.z},{sh p.t},{showStamp (stampOf st.ms p.t)},{showStampG (st.g p.t)}")
     ++ "|" ++ joinWith "," r.2
 
-def showOut {α} (sh : α → String) (ms : α → Int) : Except Err (List (List (Fix α) × List String)) → String
+def showOut {α} (sh : α → String) (ms : Stamper α) : Except Err (List (List (Fix α) × List String)) → String
   | .error e => showErr e
   | .ok rs => "ok " ++ "#".intercalate (rs.map (showTrack sh ms))
 
@@ -80,7 +94,7 @@ def one {α} (r : Except Err (List (Fix α) × List String)) : Except Err (List 
   | .error e => .error e
 
 def run {α} [Add α] [Sub α] [Mul α] [Div α] [LT α] [LE α] [DecidableLT α] [DecidableLE α]
-    [OfNat α 0] [NatCast α] (num? : String → Option α) (sh : α → String) (ms : α → Int)
+    [OfNat α 0] [NatCast α] (num? : String → Option α) (sh : α → String) (ms : Stamper α)
     (sqrt : α → α) (trunc : α → Int) (args : List String) : String :=
   match args with
   | [via, g, tracks, mode, delta, npts, factor] =>
@@ -115,11 +129,12 @@ def handle (cmd : String) (args : List String) : String :=
         let need3D := mode == "1" && delta == "none" || via == "mul"
         let rads := trs.flatMap fun tr => legs2D id tr.1 ++ (if need3D then legs3D id tr.1 else [])
         if rads.all (fun r => (ratSqrt? r).isSome) then
-          run rat? showRat (fun t => (t * 1000).floor) (fun r => (ratSqrt? r).getD 0) ratTrunc rest
+          run rat? showRat ⟨fun t => (t * 1000).floor, stampG ratTrunc⟩ (fun r => (ratSqrt? r).getD 0) ratTrunc rest
         else "inexact"
       | none => "bad-request"
     | _ => "bad-request"
   | "call", "f" :: rest =>
-    run float? showFloat (fun t => floatTrunc (t * 1000)) Float.sqrt floatTrunc rest
+    run float? showFloat
+      ⟨fun t => floatTrunc (t * 1000), fun t => if t.isNaN || t.isInf then none else stampG floatTrunc t⟩ Float.sqrt floatTrunc rest
   | _, _ => "bad-request"
 end TV.Drv.C05
